@@ -95,6 +95,7 @@ inductive Expr
   | bytes1 (a : Expr)                   -- []byte{a}
   | repeat (a n : Expr)                 -- bytes.Repeat(a, n)
   | crc32 (a : Expr)                    -- crc32.ChecksumIEEE(a)
+  | elem (a i : Expr)                   -- a[i], a a slice of numbers / strings / objects
   deriving DecidableEq, Repr, Inhabited
 
 inductive Stmt
@@ -266,6 +267,12 @@ def evalE (targs : List Ty) (s : St O) : Expr → Option (V O)
     | some (.bytes bs), some (.int k) => if 0 ≤ k then some (.bytes (List.replicate k.toNat bs).flatten) else none
     | _, _ => none
   | .crc32 a => (match evalE targs s a with | some (.bytes bs) => some (.int (crc32Go bs).toNat) | _ => none)
+  | .elem a i =>
+    match evalE targs s a, evalE targs s i with
+    | some (.ints l), some (.int k) => if 0 ≤ k then (l[k.toNat]?).map V.int else none
+    | some (.strs l), some (.int k) => if 0 ≤ k then (l[k.toNat]?).map V.bytes else none
+    | some (.objs l), some (.int k) => if 0 ≤ k then (l[k.toNat]?).map V.obj else none
+    | _, _ => none
 
 def evalArgs (targs : List Ty) (s : St O) : List Expr → Option (List (V O))
   | [] => some []
